@@ -77,16 +77,17 @@ let parse_routes s =
 let parse_msgs s =
   if s = "-" then [] else
   List.map (fun m -> match split ';' m with
-      | [ serial; typ; obj; sender; res; body; nr ] ->
+      | [ serial; typ; obj; sender; res; body; nr; flags; dest; inbody; _byteorder ] ->
           let call = typ = "c" || typ = "k" in
           let dh = { dh_interface = (if typ = "s" then Some (bytes_of_string "verif.I") else None);
                      dh_member = (if call || typ = "s" then Some (bytes_of_string "M") else None);
-                     dh_object = opt_of_hex obj; dh_destination = None;
+                     dh_object = opt_of_hex obj; dh_destination = opt_of_hex dest;
                      dh_serial = Some (n_of_int (int_of_string serial)); dh_sender = opt_of_hex sender;
-                     dh_signature = None; dh_error_name = (if typ = "e" then Some (bytes_of_string "verif.Err") else None);
+                     dh_signature = (if inbody = "-" then None else Some (bytes_of_string "s")); dh_error_name = (if typ = "e" then Some (bytes_of_string "verif.Err") else None);
                      dh_response_serial = (if typ = "c" || typ = "s" then None else Some (n_of_int 999)); dh_num_fds = None } in
           ({ m_typ = (if call then MCall else if typ = "s" then MSignal else if typ = "e" then MError else MReply);
-             m_dh = dh; m_flags = N0; m_body = [] },
+             m_dh = dh; m_flags = n_of_int (int_of_string flags);
+             m_body = (if inbody = "-" then [] else [ list_of_hex inbody ]) },
            { res = res.[0]; body = list_of_hex body; newroutes = parse_routes nr })
       | _ -> failwith "msg") (split '|' s)
 
